@@ -7,7 +7,7 @@ SPEC = {
             "(= all subsets x all permutations, plus all multiplicities) with /32 > /48 > /64 at the same base, /48 and /64 at other "
             "bases, /128s at a covered base and elsewhere, ::/0, fd00::/8 > /64, IPv4 routes incl. 0.0.0.0/0, one non-canonical "
             "entry; random dumps up to length 40 (same-base chains, exact duplicates, boundary lengths 0/1/47/48/49/63/64/65/127/128, "
-            "25% with non-canonical entries); dump failure and unprepared plugin. Non-trivial = at least two dumped routes or a "
+            "25% with non-canonical entries); dump failure and unprepared plugin; 30% deprecated stanzas (clock before the epoch, inside the countdown, after expiry) and in half of the cases a clock that advances on every reading within one Apply (1 ns / 1 ms / 1 s / 7 s / half the lifetime, so a seconds boundary or the expiry falls between two readings): all options must carry the lifetime of the first reading. Non-trivial = at least two dumped routes or a "
             "failing source; distinct by canonical input.",
     "nontrivial": lambda c: len(c.get("input", {}).get("routes") or []) >= 2 or c.get("input", {}).get("source") != "ok",
     "trusted": ["net/netip Prefix.Contains (false across families), IsSingleIP, Addr.Compare are modelled by Base.IP.contains, bits = 128 and numeric order",
